@@ -174,7 +174,11 @@ m("C03", "other",
   "that ACK, no timer needed), C03_closing_finished_lost / C03_closing_finished_ack_lost (Finished PDU or its "
   "ACK lost; the receiver's timer expires, the identical Finished PDU is re-sent; stated from any state with "
   "everything sent and the EOF acknowledged (SentAllS, Acked), hence composable with each run above: one "
-  "fault before the closing handshake and one in it). The "
+  "fault before the closing handshake and one in it). C03_end_to_end_naks_lost: a File Data PDU lost and then "
+  "any number of NAKs lost below the NAK limit — every expiry re-issues exactly the same NAK (C03_nak_expiries, "
+  "induction over the expiry times); C03_end_to_end_retransmission_lost: the retransmission is lost again and "
+  "the sender answers the re-issued NAK from its retransmission step. Building blocks are stated from states "
+  "(C03_prefix_single_loss, C03_recovery_from_waiting, C03_closing*), so they compose. The "
   "liveness claim for arbitrary <= K fault schedules (recovery within the limits) is NOT a theorem: it is "
   "explored on implementation and model — exhaustively for every schedule of one or two dropped PDUs per "
   "configuration, sampled for <= 3 mixed faults.",
@@ -183,8 +187,8 @@ m("C03", "other",
   "(general liveness not proved)", "§6 C03, §11",
   ["liveness under an adversarial link with K > 1 faults / duplication / reordering is explored, not proved "
    "(DESIGN.md §6 C03 stage 4); the proved recovery runs are for one lost File Data PDU (deferred NAK mode), a lost EOF, ACK (EOF), "
-   "Finished or ACK (Finished) PDU, one PDU per call; lost Metadata / NAK / retransmission and the immediate "
-   "NAK mode are exploration-level"])
+   "Finished, ACK (Finished), NAK (any number below the limit) or retransmitted PDU, one PDU per call; lost "
+   "Metadata, duplication/reordering beyond idempotent writes and the immediate NAK mode are exploration-level"])
 m("C04", "proof",
   "silent-peer scenarios for the three retry procedures with limits 1..4 and intervals 500..2000 ms: calls "
   "one ms before each expiry (nothing may happen), exactly at it; the awaited ACK after j < N expiries; exact "
